@@ -2,7 +2,7 @@
 (* Trace validation for C15 (DESIGN.md 2.2).  trace.ndjson holds one SELF-CONTAINED event per     *)
 (* command executed against the real code by harness/cmd/h-disco:                                *)
 (*   [cmd, pre, post, res]   pre/post = projected config-entry table of the real state.Store      *)
-(*   write/delete: res = [class, dump_changed]   class ok | reject | casfail | invalid | hung     *)
+(*   write/delete: res = [class, dump_changed]   class ok | reject | casfail | invalid | no-return *)
 (*   compile:      res = [hung, runs, gruns, class, proto, g, dump_changed]                       *)
 (*                 g = the graph returned by the REAL discoverychain.Compile (ids, edges, targets) *)
 (* Each event is judged on its own: DiscoChain!Apply / DiscoChain!Chain are evaluated on the      *)
@@ -36,7 +36,7 @@ StoreJudge(e, pre, post) ==
       E2   == Bodies(rD.new)
       direct == BrokenIn(E, E2, DirectScope(E, E2, kind, name), DefaultCtx)
   IN
-  IF impl = "hung" THEN {"Terminates"}          \* the validation inside the store transaction did not return
+  IF impl = "no-return" THEN {"Terminates"}          \* the validation inside the store transaction did not return
   ELSE
      F("valid", (impl = "invalid") = (rD.class = "invalid"))
   \cup F("cas", impl = "invalid" \/ rD.class = "invalid" \/ (impl = "casfail") = (rD.class = "casfail"))
@@ -76,7 +76,7 @@ CompileJudge(e, pre, post) ==
       cmp == ok /\ ref.errs = {} /\ uq /\ cl /\ ac /\ ap            \* both sides have a well-formed graph to compare
       ag  == AbsGraph(r.g)
   IN
-  IF r.hung THEN {"Terminates"}
+  IF r.hung \/ r.class = "no-return" THEN {"Terminates"}   \* specified: an error class or a graph, never no result
   ELSE
      F("Deterministic-graph", AllEq(r.gruns))
   \cup F("Deterministic-output", ~AllEq(r.gruns) \/ AllEq(r.runs))
